@@ -208,36 +208,35 @@ func sameKeySeq(a, b *wire.MsgTx) bool {
 // c18CheckSorted applies the statement's clauses on a result `got` of sorting a transaction
 // whose snapshot before the call was `orig`.  who = "sort" | "inplace".
 func c18CheckSorted(w *mc.W, cas c18Case, who string, orig c18Snap, got *wire.MsgTx) bool {
-	c := w.Ctx()
 	if got == nil {
-		c.Violate(who+"-result-nil", "tx", cas, "")
+		violateCapped(w, who+"-result-nil", "tx", cas, "")
 		return false
 	}
 	gi, gout, ok := c18Keys(got)
 	if !ok {
-		c.Violate(who+"-result-has-nil-element", "tx", cas, "")
+		violateCapped(w, who+"-result-has-nil-element", "tx", cas, "")
 		return false
 	}
 	d := c18Dump(got)
 	good := true
 	if d.version != orig.version || d.locktime != orig.locktime {
-		c.Violate(who+"-changes-version-or-locktime", "tx", cas, fmt.Sprintf("version %d->%d locktime %d->%d", orig.version, d.version, orig.locktime, d.locktime))
+		violateCapped(w, who+"-changes-version-or-locktime", "tx", cas, fmt.Sprintf("version %d->%d locktime %d->%d", orig.version, d.version, orig.locktime, d.locktime))
 		good = false
 	}
 	if !sameMultiset(d.ins, orig.ins) {
-		c.Violate(who+"-inputs-not-a-permutation", "tx", cas, fmt.Sprintf("%d inputs before, %d after, or contents differ", len(orig.ins), len(d.ins)))
+		violateCapped(w, who+"-inputs-not-a-permutation", "tx", cas, fmt.Sprintf("%d inputs before, %d after, or contents differ", len(orig.ins), len(d.ins)))
 		good = false
 	}
 	if !sameMultiset(d.outs, orig.outs) {
-		c.Violate(who+"-outputs-not-a-permutation", "tx", cas, fmt.Sprintf("%d outputs before, %d after, or contents differ", len(orig.outs), len(d.outs)))
+		violateCapped(w, who+"-outputs-not-a-permutation", "tx", cas, fmt.Sprintf("%d outputs before, %d after, or contents differ", len(orig.outs), len(d.outs)))
 		good = false
 	}
 	if !ref.Bip69InsSorted(gi) {
-		c.Violate(who+"-inputs-not-in-bip69-order", "tx", cas, c18Order(got))
+		violateCapped(w, who+"-inputs-not-in-bip69-order", "tx", cas, c18Order(got))
 		good = false
 	}
 	if !ref.Bip69OutsSorted(gout) {
-		c.Violate(who+"-outputs-not-in-bip69-order", "tx", cas, c18Order(got))
+		violateCapped(w, who+"-outputs-not-in-bip69-order", "tx", cas, c18Order(got))
 		good = false
 	}
 	return good
@@ -266,7 +265,6 @@ func c18Order(tx *wire.MsgTx) string {
 }
 
 func c18Eval(w *mc.W, cas c18Case) {
-	c := w.Ctx()
 	w.Eval()
 	tx := cas.build()
 	before := c18Dump(tx)
@@ -297,32 +295,32 @@ func c18Eval(w *mc.W, cas c18Case) {
 	// 1. the predicate on the original
 	var libSorted bool
 	if msg, p := mc.Guard(func() { libSorted = txsort.IsSorted(tx) }); p {
-		c.Violate("issorted-panics", "tx", cas, msg)
+		violateCapped(w, "issorted-panics", "tx", cas, msg)
 		return
 	}
 	w.Trans()
 	if !untouched() {
-		c.Violate("issorted-modifies-argument", "tx", cas, "")
+		violateCapped(w, "issorted-modifies-argument", "tx", cas, "")
 		return
 	}
 	switch {
 	case libSorted && !refSorted && !insSorted:
-		c.Violate("issorted-true-for-unsorted-inputs", "tx", cas, c18Order(tx))
+		violateCapped(w, "issorted-true-for-unsorted-inputs", "tx", cas, c18Order(tx))
 	case libSorted && !refSorted:
-		c.Violate("issorted-true-for-unsorted-outputs", "tx", cas, c18Order(tx))
+		violateCapped(w, "issorted-true-for-unsorted-outputs", "tx", cas, c18Order(tx))
 	case !libSorted && refSorted:
-		c.Violate("issorted-false-for-sorted", "tx", cas, c18Order(tx))
+		violateCapped(w, "issorted-false-for-sorted", "tx", cas, c18Order(tx))
 	}
 
 	// 2. Sort: a sorted permutation, the original untouched
 	var sorted *wire.MsgTx
 	if msg, p := mc.Guard(func() { sorted = txsort.Sort(tx) }); p {
-		c.Violate("sort-panics", "tx", cas, msg)
+		violateCapped(w, "sort-panics", "tx", cas, msg)
 		return
 	}
 	w.Trans()
 	if !untouched() {
-		c.Violate("sort-modifies-original", "tx", cas, "after Sort: "+c18Order(tx))
+		violateCapped(w, "sort-modifies-original", "tx", cas, "after Sort: "+c18Order(tx))
 	}
 	if !c18CheckSorted(w, cas, "sort", before, sorted) {
 		return
@@ -333,37 +331,37 @@ func c18Eval(w *mc.W, cas c18Case) {
 	var s2 *wire.MsgTx
 	var resSorted bool
 	if msg, p := mc.Guard(func() { resSorted = txsort.IsSorted(sorted); s2 = txsort.Sort(sorted) }); p {
-		c.Violate("sort-or-issorted-panics-on-sort-result", "tx", cas, msg)
+		violateCapped(w, "sort-or-issorted-panics-on-sort-result", "tx", cas, msg)
 		return
 	}
 	w.TransN(2)
 	if !resSorted {
-		c.Violate("issorted-false-on-sort-result", "tx", cas, c18Order(sorted))
+		violateCapped(w, "issorted-false-on-sort-result", "tx", cas, c18Order(sorted))
 	}
 	if s2 == nil {
-		c.Violate("sort-result-nil", "tx", cas, "second Sort")
+		violateCapped(w, "sort-result-nil", "tx", cas, "second Sort")
 	} else if _, _, ok := c18Keys(s2); !ok {
-		c.Violate("sort-result-has-nil-element", "tx", cas, "second Sort")
+		violateCapped(w, "sort-result-has-nil-element", "tx", cas, "second Sort")
 	} else if !c18Dump(s2).equal(sdump) {
 		if sameKeySeq(s2, sorted) {
-			c.Violate("sort-not-idempotent/only-order-among-equal-keys-differs", "tx", cas, c18Order(sorted)+" then "+c18Order(s2))
+			violateCapped(w, "sort-not-idempotent/only-order-among-equal-keys-differs", "tx", cas, c18Order(sorted)+" then "+c18Order(s2))
 		} else {
-			c.Violate("sort-not-idempotent/key-order-differs", "tx", cas, c18Order(sorted)+" then "+c18Order(s2))
+			violateCapped(w, "sort-not-idempotent/key-order-differs", "tx", cas, c18Order(sorted)+" then "+c18Order(s2))
 		}
 	}
 
 	// 4. InPlaceSort on an independent copy
 	tx2 := cas.build()
 	if msg, p := mc.Guard(func() { txsort.InPlaceSort(tx2) }); p {
-		c.Violate("inplace-panics", "tx", cas, msg)
+		violateCapped(w, "inplace-panics", "tx", cas, msg)
 		return
 	}
 	w.Trans()
 	if c18CheckSorted(w, cas, "inplace", before, tx2) && !c18Dump(tx2).equal(sdump) {
 		if sameKeySeq(tx2, sorted) {
-			c.Violate("inplace-differs-from-sort/only-order-among-equal-keys-differs", "tx", cas, c18Order(sorted)+" vs "+c18Order(tx2))
+			violateCapped(w, "inplace-differs-from-sort/only-order-among-equal-keys-differs", "tx", cas, c18Order(sorted)+" vs "+c18Order(tx2))
 		} else {
-			c.Violate("inplace-differs-from-sort/key-order-differs", "tx", cas, c18Order(sorted)+" vs "+c18Order(tx2))
+			violateCapped(w, "inplace-differs-from-sort/key-order-differs", "tx", cas, c18Order(sorted)+" vs "+c18Order(tx2))
 		}
 	}
 
